@@ -227,3 +227,35 @@ theorem concat_wf (n : Nat) (chromOf : Nat → Nat) (hmono : ∀ a b, a < b → 
         exact ⟨s, List.mem_append_right _ hs, hh⟩
 
 end Plan
+
+namespace Plan
+open Seg
+
+/-- `exec` for an individual of founding population `pop` (0 = admixed: copy from the parents;
+    `pop > 0`: every call returns the single tract `⟨pop, chrom, en, cm⟩`) -/
+def execP (pop : Nat) (chromOf : Nat → Nat) (haps : Nat → Nat) (prev : Array (Array Seg)) :
+    List Copy → Except Err (List Seg)
+  | [] => .ok []
+  | c :: cs =>
+    match getSegment pop (haps c.hom) (chromOf c.ci) c.st c.en c.cm prev with
+    | .error e => .error e
+    | .ok o =>
+      match execP pop chromOf haps prev cs with
+      | .error e => .error e
+      | .ok r => .ok (o ++ r)
+
+theorem execP_zero (chromOf : Nat → Nat) (haps : Nat → Nat) (prev : Array (Array Seg)) (cs : List Copy) :
+    execP 0 chromOf haps prev cs = exec chromOf haps prev cs := by
+  induction cs with
+  | nil => rfl
+  | cons c cs ih => simp only [execP, exec, ih]
+
+/-- an individual drawn from a source population: one tract per copy, labelled with that population -/
+theorem execP_source (pop : Nat) (hp : pop ≠ 0) (chromOf : Nat → Nat) (haps : Nat → Nat)
+    (prev : Array (Array Seg)) (cs : List Copy) :
+    execP pop chromOf haps prev cs = .ok (cs.map (fun c => ⟨pop, chromOf c.ci, c.en, c.cm⟩)) := by
+  induction cs with
+  | nil => rfl
+  | cons c cs ih => simp [execP, getSegment, hp, ih]
+
+end Plan
